@@ -40,6 +40,7 @@ pub struct OracleState {
     /// The pump restarts an instance that crashed and goes on.
     pub crash_recovery: bool,
     pub crashes_recovered: u64,
+    pub c09_checks: u64,
 }
 
 /// Task names that recur for ever at short intervals; the pump does not
@@ -325,6 +326,22 @@ pub fn at_caught_up(r: &mut Runner, repo_inst: usize, rpres: &RpResult) {
     }
     if r.oracles.c14 {
         crate::c14::at_caught_up(r, repo_inst, rpres);
+    }
+    if r.oracles.c09 && r.world.insts.len() == 1 {
+        // Background work has caught up and no fault was injected: every
+        // follow-up of every committed change must have been executed
+        // (object sets at the repository, served files written,
+        // revocations carried out). Unsent requests are not judged here
+        // (a refused or orphaned CA keeps them legitimately).
+        let everyone: BTreeSet<String> = r.model.cas.values()
+            .map(|c| c.name.clone()).collect();
+        let found = crate::c09::followups_done(
+            r, &everyone, &std::collections::BTreeMap::new()
+        );
+        r.ext.c09_checks += 1;
+        if let Some((rule, detail)) = found.into_iter().next() {
+            r.violation("C09", &rule, format!("at quiescence: {detail}"));
+        }
     }
 }
 
